@@ -1857,7 +1857,7 @@ class _AnsiSettingPoint:
         }
 
         # rgb(), fg_rgb(), bg_rgb(), or ul_rgb() with 3 distinct values as decimal or hex
-        match = re.search(r'^((?:fg_)?|(?:bg_)|(?:ul_)|(?:dul_))rgb\([\[\()]?\s*(0x)?([0-9a-fA-F]+)\s*,\s*(0x)?([0-9a-fA-F]+)\s*,\s*(0x)?([0-9a-fA-F]+)\s*[\)\]]?\)\Z', s)
+        match = re.search(r'^((?:fg_)?|(?:bg_)|(?:ul_)|(?:dul_))rgb\([\[\(]?\s*(0x)?([0-9a-fA-F]+)\s*,\s*(0x)?([0-9a-fA-F]+)\s*,\s*(0x)?([0-9a-fA-F]+)\s*[\)\]]?\)\Z', s)
         if match:
             try:
                 r = int(match.group(3), 16 if match.group(2) else 10)
@@ -1869,7 +1869,7 @@ class _AnsiSettingPoint:
             return AnsiFormat.rgb(r, g, b, component_dict.get(match.group(1), ColorComponentType.FOREGROUND))
 
         # rgb(), fg_rgb(), bg_rgb(), or ul_rgb() with 1 value as decimal or hex
-        match = re.search(r'^((?:fg_)?|(?:bg_)|(?:ul_)|(?:dul_))rgb\([\[\()]?\s*(0x)?([0-9a-fA-F]+)\s*[\)\]]?\)\Z', s)
+        match = re.search(r'^((?:fg_)?|(?:bg_)|(?:ul_)|(?:dul_))rgb\([\[\(]?\s*(0x)?([0-9a-fA-F]+)\s*[\)\]]?\)\Z', s)
         if match:
             try:
                 rgb = int(match.group(3), 16 if match.group(2) else 10)
@@ -1879,7 +1879,7 @@ class _AnsiSettingPoint:
             return AnsiFormat.rgb(rgb, component=component_dict.get(match.group(1), ColorComponentType.FOREGROUND))
 
         # color256(), fg_color256(), bg_color256(), or ul_color256() with 1 value as decimal or hex
-        match = re.search(r'^((?:fg_)?|(?:bg_)|(?:ul_)|(?:dul_))colou?r256\([\[\()]?\s*(0x)?([0-9a-fA-F]+)\s*[\)\]]?\)\Z', s)
+        match = re.search(r'^((?:fg_)?|(?:bg_)|(?:ul_)|(?:dul_))colou?r256\([\[\(]?\s*(0x)?([0-9a-fA-F]+)\s*[\)\]]?\)\Z', s)
         if match:
             try:
                 rgb = int(match.group(3), 16 if match.group(2) else 10)
